@@ -26,7 +26,10 @@
     answers within its grace period): which copy is adopted is then a function
     of the sub-results, and the theorems hold for it whatever they are.
 
-    Not covered by the model: lazy cache refresh. *)
+    The lazy cache ([WCache inst lazy], lazy > 0) serves a retained stale entry
+    and refreshes it by running the rest of the chain on a copy; that run is
+    sequenced before the foreground's. [w_stale] says which entries are stale,
+    [w_sf] that a refresh is in flight; the theorems hold for every value. *)
 From Verif Require Import Base.Prelude Gen.Constants.
 From Verif Require Import Model.Msg Model.Handler Model.Sequence Model.Plugins Proofs.Handler.
 From Verif Require Model.CacheKey Proofs.CacheKey.
@@ -155,7 +158,7 @@ Proof. intros u q r H. inversion H. repeat split. Qed.
 Definition xp1 (i : N) : xplugin :=
   nth (N.to_nat i) [XHosts (fun n => if name_eqb n Judge.C15.n0 then ([5], []) else ([], [])); XForward 0] XDropResp.
 Definition wp1 (i : N) : wplugin :=
-  nth (N.to_nat i) [WRedirect (fun n => if name_eqb n Judge.C15.n0 then Some Judge.C15.n1 else None); WCache 0] (WCache 0).
+  nth (N.to_nat i) [WRedirect (fun n => if name_eqb n Judge.C15.n0 then Some Judge.C15.n1 else None); WCache 0 0] (WCache 0 0).
 Definition prog1 : rules :=
   RCons (Rule [] (Exec 0)) (RCons (Rule [] (Wrap 0)) (RCons (Rule [] (Wrap 1)) (RCons (Rule [(true, 0)] (Exec 1)) RNil))).
 Definition qa1 : msg := Judge.C15.mk 8 256 0 [Judge.C15.Q Judge.C15.n0 1 1] [] [] [].
@@ -212,7 +215,7 @@ Definition sub_p (u : N) : rules := RCons (Rule [] (Exec u)) RNil.
 Definition xp3 (i : N) : xplugin :=
   nth (N.to_nat i) [XForward 0; XForward 1; XBlackHole [] [77];
                     XFallback (sub_p 0) (sub_p 2) false; XFallback (sub_p 1) (sub_p 2) true] XDropResp.
-Definition wp3 (i : N) : wplugin := nth (N.to_nat i) [WCache 0; WDual 0 false] (WCache 0).
+Definition wp3 (i : N) : wplugin := nth (N.to_nat i) [WCache 0 0; WDual 0 false] (WCache 0 0).
 Definition prog3 (fb : N) : rules :=
   RCons (Rule [] (Wrap 0)) (RCons (Rule [] (Wrap 1)) (RCons (Rule [] (Exec fb)) RNil)).
 Definition q3 : msg := Judge.C15.mk 11 256 0 [Judge.C15.Q Judge.C15.n3 28 1] [] [] [].
